@@ -1,10 +1,10 @@
 package rules
 
 import (
-	"unicode/utf8"
 	"go/types"
 	"sort"
 	"strings"
+	"unicode/utf8"
 
 	"verif/tools/internal/ir"
 )
